@@ -1,3 +1,4 @@
+import ast
 from typing import Iterator
 
 from inline_snapshot._adapter.adapter import adapter_map
@@ -31,6 +32,14 @@ class UndecidedValue(GenericValue):
     def _get_changes(self) -> Iterator[Change]:
 
         def handle(node, obj):
+
+            if isinstance(node, ast.JoinedStr) or any(
+                isinstance(n, ast.Starred) or n is None
+                for n in getattr(node, "elts", None) or getattr(node, "keys", None) or []
+            ):
+                # f-strings and containers with star-expressions are
+                # controlled by the user
+                return
 
             adapter = get_adapter_type(obj)
             if adapter is not None and hasattr(adapter, "items"):
